@@ -32,6 +32,9 @@ def run(ctx, res):
         srcs.append(gen_lua.gen_program(rng)[0])
     srcs += [sp[0] for sp in gen_lua.word_programs(rng)]
     srcs += gen_lua.lookalike_programs()
+    # tokens that span lines with MIXED line ends (CR LF and bare LF, LF CR, lone CR) inside: every byte is the token's own
+    srcs += [b'x=[[a\r\nb\nc]]\n', b'--[[a\r\nb\nc]]\nx=1\n', b'--[==[\n\r\n]==]\ny=2\r\n', b'y=[[\r\n\n]]', b'z=[=[\n\r\n\r]=] --[[\r\n\n\r\n]]\n',
+             b'w="a\\\r\nb\\\nc"\n', b'--[[\n\n\r\n\r\n\n]]', b'v=[[l1\nl2\r\nl3\n\rl4\rl5]]\r\n']
     alpha = [b'\\', b'0', b'1', b'4', b'x', b'a', b'"', b"'", b'\n', b'\x00', b'\x0e', b'\x80']
     for ln in range(ctx.budget(3, 4) + 1):
         for tup in itertools.product(alpha, repeat=ln):
